@@ -46,7 +46,7 @@ def run(chk):
     ]
     thorough = chk.tier == "thorough"
     proofs_ok = chk.compile_chain([], ["C17_lemmas.v"], "C17.v", timeout=900)
-    n_corr, n_search = (300, 500) if thorough else (33, 36)
+    n_corr, n_search = (220, 380) if thorough else (27, 30)
     if not proofs_ok and not thorough:
         n_corr, n_search = 90, 150
     with concurrent.futures.ThreadPoolExecutor(max_workers=2) as ex:
